@@ -13,14 +13,33 @@ INV_C10 = ["RoutingOK", "ExitsReduceOnly", "ExitCorrespondence", "NoExitWhenFlat
 INV_C06 = ["HooksFaithful", "OneTradePerCycle", "TradeFaithful", "WalletIdentity", "FlatAtEnd", "NoLivelock"]
 
 
-def model_cfg(depth=10, maxord=6, multi=False, partial=False, wrong=False, edit=1, rrepl=False, rclamp=False,
+def model_cfg(depth=10, maxord=6, multi=False, oversize=False, wrong=False, edit=1, rrepl=False, rclamp=False,
               invariants=(), emit=False):
     b = lambda x: "TRUE" if x else "FALSE"
     return ("SPECIFICATION Spec\nVIEW View\nALIAS Alias\nCONSTRAINT Bound\nCHECK_DEADLOCK FALSE\n"
-            "CONSTANTS B = %d Offs = {0, 4} MaxDepth = %d MaxOrd = %d MultiPoint = %s PartialTP = %s WrongSide = %s "
+            "CONSTANTS B = %d Offs = {0, 4} MaxDepth = %d MaxOrd = %d MultiPoint = %s Oversize = %s WrongSide = %s "
             "EditLevel = %d RepairedReplacement = %s RepairedClamp = %s\n"
-            % (BASE, depth, maxord, b(multi), b(partial), b(wrong), edit, b(rrepl), b(rclamp))
+            % (BASE, depth, maxord, b(multi), b(oversize), b(wrong), edit, b(rrepl), b(rclamp))
             + "".join("INVARIANT %s\n" % i for i in invariants) + ("INVARIANT EmitHist\n" if emit else ""))
+
+
+WIT_C10 = ["CancelYes", "CancelNo", "BothExitsAtAfter", "ExitReplacedByEdit", "EntryStop", "EntryLimit", "EntryMarket",
+           "ExitStop", "ExitLimit", "ExitMarket", "FlatAfterCloseWithCancel"]
+WIT_C06 = ["ShortCycle", "ForcedClose", "FlatAfterCloseWithCancel"]
+WIT_C06_REPAIRED = ["LongCycle3", "Reduced"]        # cycles with reductions: only free of the oversize deviation in the repaired model
+
+
+def witnesses(ctx, names, **consts):
+    """non-vacuity: every W_<name> must be reachable in the instance the invariants were checked in - TLC must
+    refute NotW_<name>.  Returns {name: length of TLC's shortest witness}."""
+    rs = tlc.run_parallel([dict(module="StrategyLayer", cfg_text=model_cfg(invariants=["NotW_" + n], **consts), workers=1,
+                                timeout=600) for n in names], max_procs=8)
+    res = {}
+    for n, r in zip(names, rs):
+        if not r.violation:
+            raise Machinery("vacuity: the situation W_%s is unreachable in the checked instance (%d states)" % (n, r.distinct))
+        res[n] = len(hist_of_violation(r))
+    return res
 
 
 def hist_of_violation(r):
@@ -123,7 +142,7 @@ def edit_words(trace):
 
 def run_vivo(ctx, items):
     D.warm_parent()
-    res = S.run_isolated(D.run_item, items, procs=ctx.pick(10, 14))
+    res = S.run_isolated(D.run_item, items, procs=ctx.pick(10, 14), chunk=4)       # every session starts with reset_process_state()
     traces, by_id = [], {}
     for it, r in zip(items, res):
         if isinstance(r, tuple):
@@ -136,7 +155,7 @@ def run_vivo(ctx, items):
 
 def run_replays(ctx, items, compare=True):
     D.warm_parent()
-    res = S.run_isolated(R.replay_item, items, procs=ctx.pick(10, 14))
+    res = S.run_isolated(R.replay_item, items, procs=ctx.pick(10, 14), chunk=12)
     traces, by_id = [], {}
     for it, r in zip(items, res):
         if isinstance(r, tuple):
